@@ -168,6 +168,6 @@ def monWait : ObsMonitor Obs WaitSt where
     | _ => some ms
 
 /-- **C03 as a monitor**: both clauses -/
-def monC03 : ObsMonitor Obs (ProbeSt × WaitSt) := monProbe.prod monWait
+def monC03 : ObsMonitor Obs (ProbeSt × WaitSt) := monProd monProbe monWait
 
 end UtilModel.Broadcast
